@@ -215,6 +215,11 @@ In222(mo, mf) == [ts |-> Ta, ls |-> La, ss |-> Sa, hasObs |-> TRUE, mo |-> mo, m
 MissMenu == {{}, {<<1, 1, 1>>}, {<<1, 1, 1>>, <<2, 2, 2>>}, {p \in P222 : p[1] = 1}, {p \in P222 : p[3] = 2}, P222}
 UC04(u) == {[inp |-> <<In222(a, b), In222(c, d)>>, clim |-> NoClimGen, opt |-> NoOptions]
               : a \in MissMenu, b \in MissMenu, c \in {{}, {<<2, 1, 2>>}}, d \in {{}, {<<1, 2, 1>>}, P222}}
+\* the same with a climatology that has zeros (non-finite quotients under -C) and missing cells of its own
+UC04Clim(u) == {[inp |-> <<In222(a, b)>>,
+                 clim |-> [on |-> TRUE, ts |-> Ta, ls |-> La, ss |-> Sa, hasObs |-> FALSE, mo |-> {}, mf |-> f, mode |-> "small", type |-> ty],
+                 opt |-> NoOptions]
+                 : a \in {{}, {<<1, 1, 2>>}}, b \in {{}, {<<2, 2, 2>>}}, f \in {{}, {<<1, 1, 1>>}}, ty \in {"divide", "subtract"}}
 UC04Quick(u) == {x \in UC04(0) : x.inp[2].mo = {} \/ x.inp[1].mf = {}}
 Universe(u) ==
   CASE Family = "C01Full"   -> UC01Full(0)
@@ -229,6 +234,7 @@ Universe(u) ==
     [] Family = "C18Mix"    -> UC18Mix(0)
     [] Family = "C04"       -> UC04(0)
     [] Family = "C04Quick"  -> UC04Quick(0)
+    [] Family = "C04Clim"   -> UC04Clim(0)
     [] Family = "C02Order"  -> UC02Order(0)
     [] Family = "C02Sel"    -> UC02Sel(0)
     [] Family = "C02Repeat" -> UC02Repeat(0)
